@@ -9,4 +9,12 @@ CHECKS = {
    technique='explicit enumeration of all expressions with <=2 (thorough: <=3) operators x all inputs of length <=4/5; reference-model trace vs implementation on every case',
    text='Every well-formed expression over 11 leaves and 11 constructors up to the operator bound, in text and bytes mode, is compiled by the real generator and run on every input up to the length bound; each run is compared (value and consumed prefix) with a definitional PEG interpreter. Exhaustive within the stated bounds, which contain every parent/child (thorough: grandparent) combination the generator can distinguish.',
    note='Trusted: CPython re/str, the reference interpreter (self-checked by setup). Bounds: operator count, leaf alphabet, input length; error positions are not compared here (C09).'),
+ 'C02': dict(engine='E1',
+   technique='explicit enumeration of all operator tables with <=2 (thorough: 3) rows x all token strings of length <=6; scan + Pratt reference trace vs implementation on every case',
+   text='All tables over 31 row types (every kind x operator lists that share spellings or are prefixes of one another, plus a mixfix row), operand given as rule and as literal, are compiled and run on every token string (well-formed, truncated or garbage) up to the bound; tree and end position are compared with the reference (flat PEG scan + Pratt builder, itself cross-checked against a declarative tree filter), and the in-order reading of the implementation tree must equal the consumed text.',
+   note='Trusted: reference operator-table semantics of DESIGN appendix A (reading: PEG-greedy, committed left to right). Bounds: rows, operator spellings {+,-,++}, input length.'),
+ 'C03': dict(engine='E1',
+   technique='explicit enumeration of bound forms / Sep option vectors x elements x separators x enclosing contexts x all inputs of length <=5/6; reference-model trace vs implementation',
+   text='Every static bound 0<=m<=n<=3 (operator and constructor spelling), data-dependent bounds from let names, template parameters, class fields and inline Python, and all 12 admissible Sep option vectors x 3 separators, over 4 element kinds, each placed in 8 enclosing contexts, run on all inputs up to the bound and compared with the reference interpreter (value, consumed prefix, failure).',
+   note='Trusted: reference interpreter. {1,k} with run-time k=0 (min>max) is treated as ill-formed like its static counterpart which List() rejects.'),
 }
